@@ -343,6 +343,12 @@ Definition hdict_of (l : list (lv * lv)) : list (lv * lv) :=
 Definition hconstruct_map (k : dictkind) (h : heap) (l : list (lv * lv)) : hres lv :=
   if existsb (fun kv => unhashable rt (fst kv)) (map vpair l) then Raise EType else Ok (alloc_dict h k (hdict_of l)).
 
+(* hash-as-produced (Core.hashing) on located values: the element (key) is hashed when it arrives *)
+Definition hhashing {A B} (key : B -> pv) (f : heap -> A -> hres B) (h : heap) (x : A) : hres B :=
+  hbind (f h x) (fun h1 y => if unhashable rt (key y) then Raise EType else Ok (h1, y)).
+Definition helem_conv (k : seqkind) (f : heap -> lv -> hres lv) : heap -> lv -> hres lv :=
+  if hashes k then hhashing snd f else f.
+
 (* the dict a structured routine returns / a TypedDict: new key strs, the member objects as values *)
 Definition hkw_dict (h : heap) (kw : list (nat * lv)) : heap * lv :=
   let (h1, ps) := alloc_keyed h (map (fun fv => (PKey (fst fv), snd fv)) kw) in alloc_dict h1 KDict ps.
@@ -405,7 +411,7 @@ Definition hmar_step (rec : ty -> heap -> lv -> hres lv) (t : ty) (h : heap) (a 
       hbind (hitervalues h a) (fun h1 vs => hbind (hmapM (rec e) h1 vs) (fun h2 rs => Ok (alloc_seq h2 KList rs)))
   | TMap k kt vt =>
       hbind (hiteritems h a) (fun h1 kvs =>
-      hbind (hmapM (hmap_step rec kt vt) h1 kvs) (fun h2 rs => hconstruct_map KDict h2 rs))
+      hbind (hmapM (hhashing (fun kv => fst (vpair kv)) (hmap_step rec kt vt)) h1 kvs) (fun h2 rs => hconstruct_map KDict h2 rs))
   | TTuple ts =>
       hbind (hitervalues h a) (fun h1 vs =>
       hbind (hmapM (fun h' tv => rec (fst tv) h' (snd tv)) h1 (zip_trunc ts vs)) (fun h2 rs => Ok (alloc_seq h2 KList rs)))
@@ -431,10 +437,10 @@ Definition hunm_step (rec : ty -> heap -> lv -> hres lv) (t : ty) (h : heap) (a 
   | TNone => bind (none_u rt (snd a)) (fun w => Ok (alloc_lv h w))
   | TSeq k e =>
       hbind (hload h a) (fun h0 d => hbind (hitervalues h0 d) (fun h1 vs =>
-      hbind (hmapM (rec e) h1 vs) (fun h2 rs => hconstruct_seq k h2 rs)))
+      hbind (hmapM (helem_conv k (rec e)) h1 vs) (fun h2 rs => hconstruct_seq k h2 rs)))
   | TMap k kt vt =>
       hbind (hload h a) (fun h0 d => hbind (hiteritems h0 d) (fun h1 kvs =>
-      hbind (hmapM (hmap_step rec kt vt) h1 kvs) (fun h2 rs => hconstruct_map k h2 rs)))
+      hbind (hmapM (hhashing (fun kv => fst (vpair kv)) (hmap_step rec kt vt)) h1 kvs) (fun h2 rs => hconstruct_map k h2 rs)))
   | TTuple ts =>
       hbind (hload h a) (fun h0 d => hbind (hitervalues h0 d) (fun h1 vs =>
       if Nat.ltb (length vs) (length ts) then Raise EValue
@@ -488,7 +494,7 @@ Definition mar_step (rec : ty -> pv -> res pv) (t : ty) (x : pv) : res pv :=
   | TSeq k a => bind (itervalues rt x) (fun vs => bind (mapM (rec a) vs) (fun rs => Ok (PSeq KList rs)))
   | TMap k kt vt =>
       bind (iteritems rt E x) (fun kvs =>
-      bind (mapM (vmap_step rec kt vt) kvs) (fun rs => construct_map rt KDict rs))
+      bind (mapM (hashing rt fst (vmap_step rec kt vt)) kvs) (fun rs => construct_map rt KDict rs))
   | TTuple ts =>
       bind (itervalues rt x) (fun vs =>
       bind (mapM (fun tv => rec (fst tv) (snd tv)) (zip_trunc ts vs)) (fun rs => Ok (PSeq KList rs)))
@@ -510,10 +516,10 @@ Definition unm_step (rec : ty -> pv -> res pv) (t : ty) (x : pv) : res pv :=
   | TNone => none_u rt x
   | TSeq k a =>
       bind (load rt x) (fun d => bind (itervalues rt d) (fun vs =>
-      bind (mapM (rec a) vs) (fun rs => construct_seq rt k rs)))
+      bind (mapM (elem_conv rt k (rec a)) vs) (fun rs => construct_seq rt k rs)))
   | TMap k kt vt =>
       bind (load rt x) (fun d => bind (iteritems rt E d) (fun kvs =>
-      bind (mapM (vmap_step rec kt vt) kvs) (fun rs => construct_map rt k rs)))
+      bind (mapM (hashing rt fst (vmap_step rec kt vt)) kvs) (fun rs => construct_map rt k rs)))
   | TTuple ts =>
       bind (load rt x) (fun d => bind (itervalues rt d) (fun vs =>
       if Nat.ltb (length vs) (length ts) then Raise EValue
